@@ -4,7 +4,7 @@
 #   search()      property oracle: lib/worldspec.py reference (written from the property texts) judges
 #                 the real code's observations on clean histories; discrepancies are shrunk to a minimal
 #                 operation sequence and reported as witnesses
-import json, os, random
+import json, os, random, re
 from lib import vf, worldgen, worldspec
 from gen import gsm_consts, py_unicode, trxd_consts, hopping, world as world_gen
 
@@ -48,7 +48,46 @@ def drift(run):
             run.drift[f] = "unreadable: %s" % e
 
 
-def correspond(run, corr, profiles, n_quick, n_thorough):
+UNOBS = re.compile(r"(?<![^ ])(m|ta|p|toa|rssi|ci|drop|dly)\?(?![^ ])")
+
+
+def mask_unobserved(impl_answer, model_answer):
+    """a group of the state dump the harness could not read in this tree (`drop?`: the attributes live elsewhere) is masked in
+    the model's answer as well; what the group drives (emitted datagrams, replies) is still compared"""
+    groups = set(UNOBS.findall(impl_answer))
+    if not groups:
+        return model_answer
+    for g in groups:
+        model_answer = re.sub(r"(?<![^ ])%s-?[0-9N][^ ]*" % g, g + "?", model_answer)
+    return model_answer
+
+
+FORMS = {"POWERON": (0,), "POWEROFF": (0,), "RXTUNE": (1,), "TXTUNE": (1,), "MEASURE": (1,), "SETFORMAT": (1,), "SETPOWER": (1,),
+         "NOMTXPOWER": (0,), "RFMUTE": (1,), "SETTA": (1,), "FAKE_TOA": (1, 2), "FAKE_RSSI": (1, 2), "FAKE_CI": (1, 2),
+         "FAKE_DROP": (1, 2), "FAKE_TRXC_DELAY": (1,)}
+
+
+def has_undocumented_form(line):
+    """does the history send a KNOWN command verb with a number of arguments no documented form of it has (e.g. `RFMUTE 1 2 3`)?
+    How such a datagram is answered is C05's subject (and C14's: no crash); the other properties of the world model
+    quantify over the documented forms, so for them such a history is outside the domain (still run and compared: evidence)"""
+    for op in line.split(" | ", 1)[-1].split(" ; "):
+        t = op.split()
+        if len(t) == 4 and t[0] == "C":
+            try:
+                txt = bytes.fromhex(t[3]).decode()
+            except (ValueError, UnicodeDecodeError):
+                continue
+            if not txt.startswith("CMD "):
+                continue
+            # the toolkit's own tokenisation (ctrl_if.py): data[4:].strip().strip("\0").split(" ")
+            req = txt[4:].strip().strip("\0").split(" ")
+            if req[0] in FORMS and (len(req) - 1) not in FORMS[req[0]]:
+                return True
+    return False
+
+
+def correspond(run, corr, profiles, n_quick, n_thorough, in_domain=None):
     """model vs implementation on generated histories of the given profiles"""
     drift(run)
     n = run.scale(n_quick, n_thorough)
@@ -63,11 +102,19 @@ def correspond(run, corr, profiles, n_quick, n_thorough):
         fut = ex.submit(vf.run_driver, lines)
         impl = run_impl(lines)
         model = fut.result()
+    model = [mask_unobserved(a, b) for a, b in zip(impl, model)]
+    nmask = sum(1 for a in impl if UNOBS.search(a))
+    if nmask:
+        corr.distribution["histories with a state group the harness cannot read in this tree (masked on both sides)"] = nmask
     for l, a, b in zip(lines, impl, model):
         nops = l.count(" ; ") + 1
         corr.count(hash(l), "histories")
         corr.distribution["operations"] = corr.distribution.get("operations", 0) + nops
-        if a != b and len(corr.disagreements) < 20:
+        if a != b and in_domain is not None and not in_domain(l):
+            corr.outside += 1
+            if len(corr.outside_samples) < 5:
+                corr.outside_samples.append({"request": l[:300], "impl": a[:200], "model": b[:200]})
+        elif a != b and len(corr.disagreements) < 20:
             corr.disagreements.append({"request": l, "impl": a, "model": b, "first_diff": first_diff(l, a, b)})
         if a.startswith("cfgerr"):
             corr.distribution["config-error"] = corr.distribution.get("config-error", 0) + 1
